@@ -156,6 +156,24 @@ def no_negative_event_stored(ctx, rule):
         continue
       n += 1
       stored = norm_text(st.value)
+      # the value may come out of a module-level helper that refuses a negative value itself: every return of the helper that hands
+      # one of its parameters back must be unreachable with that parameter == -1
+      if isinstance(st.value, ast.Call) and isinstance(st.value.func, ast.Name) and st.value.func.id in fi.module.functions:
+        g = fi.module.functions[st.value.func.id]
+        gp = g.params()
+        rets = [r for r in U.walk_stmts(g.node, into_nested=False) if isinstance(r, ast.Return) and r.value is not None]
+        if rets and all(isinstance(r.value, ast.Name) and r.value.id in gp for r in rets):
+          verdicts = []
+          for r in rets:
+            cs = [(t, p_) for t, p_ in U.path_conditions(g.node, r) if any(isinstance(x, ast.Name) and x.id == r.value.id for x in ast.walk(t))]
+            verdicts.append(scenario.tv_all(cs, scenario.subst_of([(r.value.id, '-1')])) if cs else True)
+          if all(v is False for v in verdicts):
+            ctx.ob(rule, fi, st, True, '%s hands its argument back only when it is not negative' % g.qualname, construct=cons)
+            continue
+          if any(v is None for v in verdicts):
+            why = 'cannot classify: whether %s can return a negative value is not decided' % g.qualname
+            ctx.ob(rule, fi, st, False, why, construct=cons, unknown=why)
+            continue
       conds = [(t, p) for t, p in U.path_conditions(fn, st, stop_at=lp) if any(norm_text(x) == stored for x in ast.walk(t))]
       r = scenario.tv_all(conds, scenario.subst_of([(stored, '-1')])) if conds else True
       if r is False:
